@@ -238,9 +238,44 @@ def _check_any_closure(ctx, pf):
     return True
 
 
+def _check_extreme(ctx, pf):
+    """`resolutions.iter().max() == Some(&NeedsRebuild)` over a derived ordering of the variants:
+    "some element is NeedsRebuild" iff the extreme taken is the one NeedsRebuild is."""
+    ext = [c for c in pf.calls if c.path in ("std::iter::Iterator::max", "std::iter::Iterator::min")]
+    if len(ext) != 1 or pf.loops():
+        return False
+    c = ext[0]
+    src = pf.origins_of_operand(c.args[0])
+    if not (src and all(o[0][0] == "param" and all(st[0] in ("iter", "adapt") for st in o[1:]) for o in src)):
+        ctx.viol((pf.id, "pred-collection"), "the predicate does not look at every resolution", c.where)
+        return True
+    a = ctx.P.facts.adts.get("blob::FileResolution")
+    ords = [i for i in ctx.P.facts.impls if i["self_ty"]["s"] == "blob::FileResolution" and i["trait"] in ("std::cmp::Ord", "std::cmp::PartialOrd")]
+    if a is None or not ords or not all(i["derived"] for i in ords):
+        raise AnalysisError("idiom not recognised: %s orders resolutions by a hand-written comparison" % pf.id)
+    names = [v["name"] for v in a["variants"]]
+    named = set()
+    for g in ctx.P.fns.values():
+        if g.kind == "promoted" and g.body.get("of") == pf.id:
+            for b in g.blocks:
+                for st in b["stmts"]:
+                    if st["k"] == "assign" and st["rv"]["k"] == "aggregate" and st["rv"]["kind"].get("adt") == "blob::FileResolution":
+                        named.add(st["rv"]["kind"]["variant"])
+    if named != {"NeedsRebuild"}:
+        raise AnalysisError("idiom not recognised: %s compares the extreme resolution with %s" % (pf.id, sorted(named)))
+    want = "max" if names.index("NeedsRebuild") == len(names) - 1 else ("min" if names.index("NeedsRebuild") == 0 else None)
+    if want is None or c.name != want:
+        ctx.viol((pf.id, "pred-wrong-extreme"), "the predicate takes the `%s` of the resolutions (NeedsRebuild is variant %d of %d in the derived order): it is true only when *every* target needs rebuilding, so a rule with one lost and one intact target never runs its command again" % (c.name, names.index("NeedsRebuild") + 1, len(names)), c.where)
+    else:
+        ctx.ok()
+    return True
+
+
 def _check_any_needs_rebuild(ctx, pf):
     lps = pf.loops()
     if len(lps) == 0 and _check_any_closure(ctx, pf):
+        return
+    if len(lps) == 0 and _check_extreme(ctx, pf):
         return
     if len(lps) != 1:
         raise AnalysisError("idiom not recognised: the needs-rebuild predicate %s is neither a single loop nor iter().any(..)" % pf.id)
